@@ -166,6 +166,22 @@ func runPushRestart(t *testing.T, c Case) engine.Verdict {
 	return engine.Verdict{NonTrivial: restarts > 0, Labels: []string{fmt.Sprintf("restarts:%d", restarts), fmt.Sprintf("second-connection-spoke:%v", probeOK)}}
 }
 
+// deadlines: requests whose contexts (ServerOptions.NewContext) expire while
+// they wait for a slot or behind the barrier - whatever that does to them, the
+// server must still wind down: every handler returns, WaitStatus returns.
+func genDeadlines(t *rapid.T) Case { return Case{Scenario: gen.DeadlineScenario(t)} }
+
+func runDeadlines(t *testing.T, c Case) engine.Verdict {
+	h := sim.Run(t, c.Scenario)
+	// (only termination is judged: a notification whose own deadline passed
+	// while it waited for a slot is legitimately never handed to its handler,
+	// which the shutdown predicates of the other parts would call a loss)
+	if h.BubbleErr != "" {
+		return engine.Failf("C08/goroutines-left-or-deadlock", "%s\nscript:\n%s\nhistory:\n%s", h.BubbleErr, oracle.ScriptText(c.Scenario), oracle.HistoryText(h))
+	}
+	return engine.Verdict{NonTrivial: true, Labels: []string{"base-deadline"}}
+}
+
 const rule = "non-trivial = the stop happens with at least one handler parked or one record queued, or a record arrives after the stop, or the stop step races with its neighbours in a burst; distinct = hash of the scenario"
 
 var parts = []engine.AnyPart{
@@ -173,6 +189,8 @@ var parts = []engine.AnyPart{
 		Rule: "rapid-generated traffic (valid, invalid, notification-shaped invalid, reply-shaped records, pushes, cancels) with one or two stop causes (Stop, peer close) at any position and optionally an injected Recv/Send fault, records after the stop on channels whose Close does / does not unblock Recv, WaitStatus, restart on a fresh channel with a probe call; " + rule},
 	engine.Part[Case]{Name: "faults", Run: run, Gen: genEnum,
 		Rule: "fault enumeration: each generated fault-free scenario (at most 14 steps) is re-run once for EVERY Recv index x {(nil,err), (data,EOF), (data,err)} and EVERY Send index x {err}; the whole enumeration of one scenario is one case; " + rule},
+	engine.Part[Case]{Name: "deadlines", Run: runDeadlines, Gen: genDeadlines,
+		Rule: "the structured deadline scripts of C01/C06 (request contexts with a 50ms deadline from ServerOptions.NewContext, slots filled with parked calls, calls and notifications waiting for a slot or behind the barrier while the fake clock passes their deadline, fresh requests, slots given back) followed by the end of the connection: the bubble ends with every goroutine gone (WaitStatus returns, no handler or dispatcher is left waiting); non-trivial by construction; distinct = hash of the scenario"},
 	engine.Part[Case]{Name: "pushrestart", Run: runPushRestart, Gen: genPushRestart,
 		Rule: "push scripts that open with 1-4 callbacks from outside (cancellable, deadline and Background contexts) left outstanding, Stop or peer close, WaitStatus and Start of the same Server on a fresh channel within the same step (often with the old callbacks' watchers delayed by a pin), then 1-3 new callbacks and ordinary push traffic, replies, stops: the bubble must end with every goroutine gone (a callback or handler of the second connection that never returns is a deadlock); non-trivial = the server was restarted at least once; distinct = hash of the scenario"},
 }
